@@ -2,6 +2,7 @@
 C19 — Simulations are reproducible and time is monotone.  (partial: see DESIGN.md §3 C19)
 -/
 import FsVerif.Proofs.PosExtra
+import FsVerif.Proofs.BufExtra
 namespace FsVerif.Props.C19
 open FsVerif PosStore
 
@@ -11,5 +12,11 @@ theorem pos_time_monotone {s : PosStore} (h : Reachable s) (op : Op) : s.now ≤
 
 /-- The model is a function of configuration and operation sequence: two runs agree. -/
 theorem pos_deterministic (cfg : PosCfg) (ops : List Op) : run (init cfg) ops = run (init cfg) ops := rfl
+
+
+/-- BufferStore: the clock only moves forward (adv adds, settle / kstep keep it). -/
+theorem buf_time_monotone {s : BufStore} (h : BufStore.ReachD s) :
+    (∀ dt, (s.adv dt).now = s.now + dt) ∧ s.settle.now = s.now ∧ s.kstep.now = s.now :=
+  ⟨BufStore.adv_now s, (BufStore.settle_full (BufStore.reachD_full h)).2, (BufStore.kstep_full (BufStore.reachD_full h)).2⟩
 
 end FsVerif.Props.C19
